@@ -117,6 +117,10 @@ type c18Scenario struct {
 	// stream); head = the request method is HEAD (no body whatever the script says)
 	framing int
 	head    bool
+	// loopback lane only: the origin first answers 302 (with a JSON body of its own) and the
+	// transport follows it — one more exchange inside httpClient.Do; everything the caller gets must
+	// belong to the final answer
+	redir bool
 	// use the package-level wrapper (req.Get, req.MustPost, …: the default client) when the scenario
 	// configures nothing at request level
 	pkg bool
@@ -567,6 +571,13 @@ func c18Run(sc *c18Scenario) *c18Obs {
 		sends := 0
 		id := strconv.FormatInt(c18E2ESeq.Add(1), 10)
 		c18E2EHandlers.Store(id, http.HandlerFunc(func(w http.ResponseWriter, r *http.Request) {
+			if sc.redir && r.URL.Query().Get("hop") == "" {
+				w.Header().Set("Location", r.URL.Path+"?hop=1")
+				w.Header().Set("Content-Type", "application/json")
+				w.WriteHeader(http.StatusFound)
+				io.WriteString(w, `{"a":"redirect-hop","n":99,"msg":"not the final answer"}`)
+				return
+			}
 			var h *c18Http
 			tag, chal := 0, ""
 			if strings.HasPrefix(r.Header.Get("Authorization"), "Digest ") {
@@ -1946,7 +1957,7 @@ func c18RunLane(t *testing.T, s *verifh.Session, hist *c18Hist, scs []*c18Scenar
 // checkers x auto-read x entry points.
 func TestVerif_C18_call(t *testing.T) {
 	s := verifh.New(t, "C18", "call",
-		"real client + scripted http.RoundTripper, no user stages: EVERY status 100..599 x {json, xml, other, none} content types x {well-formed, ill-formed, empty} bodies x target sets {success, error, common error type, none, combinations} x {default, custom} state checkers x auto-read on/off x read failure x entry points Do/Send/verb/Must* (quick: 6 random combinations per status; thorough: 60); observed (resp, err, resp.Err, hook count, final state, SuccessResult/ErrorResult + target contents, unmarshaller invocations) vs model and vs the independent contract oracle; non-trivial = every case")
+		"real client + scripted http.RoundTripper, no user stages: EVERY status 100..599 x {json, xml, other, none} content types x {well-formed, ill-formed, empty} bodies x target sets {success, error, common error type, none, combinations} x {default, custom} state checkers x auto-read on/off (either level) x read failure x response-body transformer {none, accepts, fails returning nil, fails returning a body} x SetOutput/SetOutputFile (output failing or not) x out-of-range state checker x entry points Do(), Do(ctx), Send, EVERY verb / Must* method of *Request (enumerated by reflection), the 14 package-level wrappers (one case per status), requests built by R / NewRequest / c.Post x the client obtained directly or through Clone (3 lineages, decoy stages on the other client) (quick: 12 combinations per status; thorough: 80); observed (resp, err, resp.Err, hook count, final state, SuccessResult/ErrorResult + target contents, unmarshaller invocations) vs model and vs the independent contract oracle; non-trivial = every case")
 	s.OracleIndependent = true
 	r := s.Rand()
 	hist := newC18Hist(s)
@@ -2006,7 +2017,7 @@ func TestVerif_C18_call(t *testing.T) {
 // TestVerif_C18_pipe: generated middleware stacks.
 func TestVerif_C18_pipe(t *testing.T) {
 	s := verifh.New(t, "C18", "pipe",
-		"real client, generated stacks: 0..3 client request middleware, built-in block failure (bad URL), 0..3 wrapping round-trippers (pass / short-circuit with nil or fresh response / replace error / drop response / swallow / record), GetBody failure, scripted transport (error or any status/content type/body), 0..3 client response middleware and 0..3 request-level ones (nop / return error / set resp.Err / clear resp.Err) plus the built-in digest middleware with its second exchange, retry 0..3 with default rule or scripted conditions, every action scripted per attempt, targets, checkers, auto-read, error hook, entry points Do/Send/verb/Must*; a third of the stacks is 'quiet' (mostly succeeding stages); observed: returned (resp, err), resp.Err, hook count, final response (exchange tag, status, state, body cached, result/error slots), per-attempt invocation log of every middleware, wrapper, exchange and unmarshaller; non-trivial = not a builder error and no crash")
+		"real client, generated stacks: 0..3 client request middleware, built-in block failure (bad URL), 0..3 wrapping round-trippers (pass / short-circuit with nil or fresh response / replace error / drop response / swallow / record), GetBody failure, scripted transport (error or any status/content type/body), 0..3 client response middleware and 0..3 request-level ones (nop / return error / set resp.Err / clear resp.Err) plus the built-in digest middleware with its second exchange, retry 0..3 with default rule or scripted conditions, SetRetryCount(-1) ended by the conditions alone, transport errors that wrap context.Canceled, the context cancelled at the wait before a retry, every action scripted per attempt, targets, checkers (incl. out-of-range verdicts), auto-read, response-body transformer outcomes per exchange, SetOutput/SetOutputFile with per-attempt output failures, error hook, every entry point (see lane call), client obtained directly or through Clone with decoy stages on its relatives; a third of the stacks is 'quiet' (mostly succeeding stages); observed: returned (resp, err), resp.Err, hook count, final response (exchange tag, status, state, body cached AND whose body it is, result/error slots), saved output vs final body, per-attempt invocation log of every middleware, wrapper, exchange and unmarshaller; non-trivial = not a builder error and no crash")
 	s.OracleIndependent = true
 	r := s.Rand()
 	hist := newC18Hist(s)
@@ -2034,7 +2045,7 @@ func TestVerif_C18_pipe(t *testing.T) {
 // in-process origin on loopback (net/http/httptest), which plays the scripted exchanges.
 func TestVerif_C18_e2e(t *testing.T) {
 	s := verifh.New(t, "C18", "e2e",
-		"real client AND real transport (HTTP/1.1 over loopback) against an in-process httptest origin playing the script: final statuses {200,201,202,204,206,300,304,400,401,404,409,500,503} x content types x well/ill-formed bodies x targets x checkers x auto-read x entry points, 0..2 client/request-level response middleware, retry with scripted conditions, and the digest middleware answering a real 401 challenge; same observations, model line and oracle as the pipe lane; non-trivial = every case")
+		"real client AND real transport (HTTP/1.1 over loopback) against an in-process httptest origin playing the script: final statuses {200,201,202,204,206,300,304,400,401,404,409,500,503} x content types x well/ill-formed bodies x targets x checkers x auto-read x entry points, 0..2 client/request-level response middleware, retry with scripted conditions, unbounded retry, context cancelled at the wait, body transformer, SetOutput/SetOutputFile, Clone lineages, the digest middleware answering a real 401 challenge, a 302 hop followed by the transport, and content presence as the wire shows it: HEAD, 204/205/304, Content-Length 0, chunked with no chunk, gzip of nothing; same observations, model line and oracle as the pipe lane; non-trivial = every case")
 	s.OracleIndependent = true
 	srv := httptest.NewServer(http.HandlerFunc(c18E2EServe))
 	defer srv.Close()
@@ -2107,6 +2118,10 @@ func TestVerif_C18_e2e(t *testing.T) {
 			sc.reqResp = append(sc.reqResp, st)
 		}
 		c18Finish(r, sc, 4, 3)
+		if !digest && r.Intn(4) == 0 {
+			sc.redir = true
+			hist.Count("redirect-hop")
+		}
 		if sc.head { // no body ever arrives: the script's bodies are empty
 			sc.outFails = nil
 			for _, t := range sc.transport {
@@ -2139,7 +2154,7 @@ func TestVerif_C18_e2e(t *testing.T) {
 	s.Finish()
 	hist.need(t, "bound=success", "bound=errorR", "bound=errorC", "out=err:unm", "out=err:s", "out=mustpanic", "out=ok", "digest-resent",
 		"final=S", "final=E", "final=U", "final=204", "attempts=2", "hook=1", "head", "empty-body/framing=0", "empty-body/framing=1",
-		"empty-body/framing=2", "save", "unbounded-retried", "xform-fails+err", "clonepath=1")
+		"empty-body/framing=2", "save", "unbounded-retried", "xform-fails+err", "clonepath=1", "redirect-hop")
 }
 
 // c18Corpus: minimal witnesses (also proved as counter-examples of the as-found model in
